@@ -7,6 +7,7 @@
    is lost between the token stream and the rendered text.  What remains for the full statement is
    that the tokenizer's output spells its input - validated by the round-trip oracle. *)
 From MW Require Import PyBase Nodes Builder Flatten BuilderProofs.
+From MW Require Import HeadingFrag HeadingFragProofs.
 
 Theorem C01_build_flatten_partial : forall c, wf_code c -> build (fl_code c) = Ok c.
 Proof. exact build_flatten_lemma. Qed.
@@ -32,3 +33,22 @@ Definition ex_tree : code :=
         None false false false [] [NText [98%N]] None None].
 Example C01_example : build (fl_code ex_tree) = Ok ex_tree /\ wf_codeb ex_tree = true /\ length (fl_code ex_tree) = 26.
 Proof. vm_compute. repeat split; reflexivity. Qed.
+
+(* ---- the tokenizer on the heading fragment (coq/HeadingFrag.v: '=' and '\n' the only markers), tied to BOTH
+   real tokenizers by correspondence (tools/headfrag.py).  For EVERY string and every depth limit: the model's
+   tree renders to the input, and the proved Builder applied to the model's token stream yields a tree that
+   renders to the input - the full statement of C01, end to end, on this sub-language. *)
+Theorem C01_fragment_lossless : forall md s, str_code (frag_nodes md s) = s.
+Proof. exact frag_lossless. Qed.
+
+Theorem C01_fragment_end_to_end : forall md s, exists c, build (frag_tokens md s) = Ok c /\ str_code c = s.
+Proof. exact frag_end_to_end. Qed.
+
+Print Assumptions C01_fragment_lossless.
+Print Assumptions C01_fragment_end_to_end.
+
+(* Non-vacuity: "== a = b ==\nx=" has a level-2 heading whose title keeps the inner '=' *)
+Example C01_fragment_example :
+  frag_tokens 100 [61;61;32;97;32;61;32;98;32;61;61;10;120;61]%N =
+  [THeadingStart 2; TText [32;97;32;61;32;98;32]%N; THeadingEnd; TText [10;120;61]%N].
+Proof. vm_compute. reflexivity. Qed.
